@@ -953,12 +953,32 @@ impl World {
                     gmask.extend(status_kinds(&json!(["DataOnReaders"])));
                 }
                 let emask = on(&st["em"], &kind);
-                let a = g.factory.create_participant(self.domain, QosKind::Default, Some(RecAny { core: core.clone(), level: "participant" }), &pmask).await.expect("participant A");
+                let how = st["how"].as_str().unwrap_or("create").to_string();
+                let later = how == "set";
+                let none: Vec<dust_dds::infrastructure::status::StatusKind> = vec![];
+                let a = if later {
+                    g.factory.create_participant(self.domain, QosKind::Default, NO_LISTENER, NO_STATUS).await.expect("participant A")
+                } else {
+                    g.factory.create_participant(self.domain, QosKind::Default, Some(RecAny { core: core.clone(), level: "participant" }), &pmask).await.expect("participant A")
+                };
                 let b = g.factory.create_participant(self.domain, QosKind::Default, NO_LISTENER, NO_STATUS).await.expect("participant B");
                 let ta = a.create_topic::<KeyedData>("T", "KeyedData", QosKind::Default, NO_LISTENER, NO_STATUS).await.unwrap();
                 let tb = b.create_topic::<KeyedData>("T", "KeyedData", QosKind::Default, NO_LISTENER, NO_STATUS).await.unwrap();
-                let pa = a.create_publisher(QosKind::Default, Some(RecAny { core: core.clone(), level: "publisher" }), &gmask).await.unwrap();
-                let sa = a.create_subscriber(QosKind::Default, Some(RecAny { core: core.clone(), level: "subscriber" }), &gmask).await.unwrap();
+                let (pa, sa) = if later {
+                    (a.create_publisher(QosKind::Default, NO_LISTENER, NO_STATUS).await.unwrap(), a.create_subscriber(QosKind::Default, NO_LISTENER, NO_STATUS).await.unwrap())
+                } else {
+                    (a.create_publisher(QosKind::Default, Some(RecAny { core: core.clone(), level: "publisher" }), &gmask).await.unwrap(),
+                     a.create_subscriber(QosKind::Default, Some(RecAny { core: core.clone(), level: "subscriber" }), &gmask).await.unwrap())
+                };
+                if later {
+                    let _ = a.set_listener(Some(RecAny { core: core.clone(), level: "participant" }), &pmask).await;
+                    let _ = pa.set_listener(Some(RecAny { core: core.clone(), level: "publisher" }), &gmask).await;
+                    let _ = sa.set_listener(Some(RecAny { core: core.clone(), level: "subscriber" }), &gmask).await;
+                }
+                if how == "removed-group" {
+                    let _ = pa.set_listener(None::<RecAny>, &none).await;
+                    let _ = sa.set_listener(None::<RecAny>, &none).await;
+                }
                 let pb = b.create_publisher(QosKind::Default, NO_LISTENER, NO_STATUS).await.unwrap();
                 let sb = b.create_subscriber(QosKind::Default, NO_LISTENER, NO_STATUS).await.unwrap();
                 let reader_side = matches!(kind.as_str(), "SubscriptionMatched" | "DataAvailable" | "RequestedDeadlineMissed" | "SampleRejected" | "RequestedIncompatibleQos");
@@ -979,7 +999,15 @@ impl World {
                 }
                 core.log(json!({"ev": "DispatchCase", "status": kind, "em": st["em"], "gm": st["gm"], "pm": st["pm"], "dor": st["dor"], "id": st["id"]}));
                 if reader_side {
-                    let ra = sa.create_datareader::<KeyedData>(&ta, QosKind::Specific(aq_r), Some(RecReaderListener { core: core.clone(), level: "reader", idx: 0 }), &emask).await;
+                    let ra = if later {
+                        sa.create_datareader::<KeyedData>(&ta, QosKind::Specific(aq_r), NO_LISTENER, NO_STATUS).await
+                    } else {
+                        sa.create_datareader::<KeyedData>(&ta, QosKind::Specific(aq_r), Some(RecReaderListener { core: core.clone(), level: "reader", idx: 0 }), &emask).await
+                    };
+                    if let Ok(r) = &ra {
+                        if later { let _ = r.set_listener(Some(RecReaderListener { core: core.clone(), level: "reader", idx: 0 }), &emask).await; }
+                        if how == "removed-endpoint" { let _ = r.set_listener(None::<RecReaderListener>, &none).await; }
+                    }
                     self.sleep_ms(100).await;
                     let wb = pb.create_datawriter::<KeyedData>(&tb, QosKind::Specific(bq_w), NO_LISTENER, NO_STATUS).await;
                     self.sleep_ms(300).await;
@@ -995,7 +1023,15 @@ impl World {
                         core.log(json!({"ev": "DispatchSkip", "why": format!("reader {} writer {}", res_name(&ra), res_name(&wb))}));
                     }
                 } else {
-                    let wa = pa.create_datawriter::<KeyedData>(&ta, QosKind::Specific(aq_w), Some(RecWriterListener { core: core.clone(), level: "writer", idx: 0 }), &emask).await;
+                    let wa = if later {
+                        pa.create_datawriter::<KeyedData>(&ta, QosKind::Specific(aq_w), NO_LISTENER, NO_STATUS).await
+                    } else {
+                        pa.create_datawriter::<KeyedData>(&ta, QosKind::Specific(aq_w), Some(RecWriterListener { core: core.clone(), level: "writer", idx: 0 }), &emask).await
+                    };
+                    if let Ok(w) = &wa {
+                        if later { let _ = w.set_listener(Some(RecWriterListener { core: core.clone(), level: "writer", idx: 0 }), &emask).await; }
+                        if how == "removed-endpoint" { let _ = w.set_listener(None::<RecWriterListener>, &none).await; }
+                    }
                     self.sleep_ms(100).await;
                     let rb = sb.create_datareader::<KeyedData>(&tb, QosKind::Specific(bq_r), NO_LISTENER, NO_STATUS).await;
                     self.sleep_ms(300).await;
